@@ -435,3 +435,241 @@ def mem_case(c, base, index, scale, order, disp, hexdisp, rnd=None, kw_written=N
     case["base_n"] = regnum(base) if base else None
     case["index_n"] = regnum(index) if index else None
     return case
+
+
+# ----------------------------------------------------------------- C03
+def imm_values(rnd, nrand=3):
+    vs = set([0, 1, 2])
+    for c in (0x7f, 0xff, 0x7fff, 0xffff, 0x7fffffff, 0xffffffff):
+        for d in (-1, 0, 1, 2):
+            vs.add(c + d)
+    vs |= {2**63 - 1, 2**63, 2**64 - 1, 2**63 + 1, 2**64 - 2}
+    for c in (0xff80, 0xffffff80, 2**64 - 0x80, 2**64 - 0x80000000):  # unsigned spellings of small negatives
+        vs |= {c - 1, c, c + 1}
+    vs |= {0xfffd, 0xfffffffd, 0xe0, 0xe1}
+    for c in (1, 2, 0x7f, 0x80, 0x81, 0xff, 0x100, 0x7fff, 0x8000, 0x8001, 0xffff, 0x10000, 0x7fffffff, 0x80000000, 0x80000001):
+        vs.add(-c)
+    vs |= {-(2**63), -(2**63) + 1, -0xffffffff, -0x100000000}
+    for nb in range(1, 9):
+        for _ in range(nrand):
+            x = rnd.getrandbits(8 * nb) | (1 << (8 * nb - 1 - rnd.randrange(2)))
+            vs.add(x)
+            if x < 2**63:
+                vs.add(-x)
+    return sorted(vs)
+
+
+def spellings(v, rnd=None, all_=False):
+    """Textual spellings of an integer in AssemblyLine/nasm syntax."""
+    mag = abs(v)
+    sg = "-" if v < 0 else ""
+    out = [("hex", sg + "0x%x" % mag), ("dec", sg + "%d" % mag)]
+    hexd = "%x" % mag
+    if len(hexd) < 15:
+        out.append(("hex0", sg + "0x" + "0" * (1 + (len(hexd) % 3)) + hexd))
+    if len(hexd) <= 16:
+        out.append(("hex16", sg + "0x" + hexd.rjust(16, "0")))
+    if all_ or rnd is None:
+        return out
+    return [out[0], out[1]] + ([rnd.choice(out[2:])] if len(out) > 2 else [])
+
+
+def fits(v, w, kind):
+    """Is v representable for an immediate operand of this kind at destination width w?"""
+    if kind == "imm8u":
+        return 0 <= v <= 255
+    if kind == "mov64":
+        return -(2**63) <= v < 2**64
+    if kind == "sx32":  # imm32 sign-extended to 64 (ALU r/m64, mov m64, push)
+        return -(2**31) <= v < 2**31
+    return -(2**(w - 1)) <= v < 2**w
+
+
+IMM_MEMS = [("rbx", None, None, None), ("rbx", "rcx", 2, None), ("rax", "rcx", 2, None), ("r9", None, None, 0x10), ("rax", None, None, None), ("ebp", None, None, None)]
+
+
+def gen_imm(rnd, full=False):
+    out = []
+    vals = imm_values(rnd, 3 if not full else 12)
+    regsets = {8: ["al", "cl", "dh", "sil", "r9b"], 16: ["ax", "cx", "r9w"], 32: ["eax", "ecx", "r9d"], 64: ["rax", "rcx", "r9"]}
+
+    def emit(fam, mn, form, w, kind, build, **kw):
+        for v in vals:
+            if not fits(v, w, kind):
+                continue
+            for sp, txt in spellings(v, rnd, all_=full):
+                text, ntext, ops = build(txt, v)
+                c = mk(fam, mn, form, text, ops, w, nasm=ntext, imm=v, spell=sp, **kw)
+                c["imm_neg"] = v < 0
+                c["imm_bytes"] = max(1, (abs(v).bit_length() + 7) // 8)
+                out.append(c)
+
+    for mn in ALU + ["mov", "test"]:
+        for w in (8, 16, 32, 64):
+            kind = ("mov64" if (mn == "mov") else "sx32") if w == 64 else "w"
+            for reg in regsets[w]:
+                def b(txt, v, mn=mn, reg=reg):
+                    t = "%s %s, %s" % (mn, reg, txt)
+                    return t, t, [R(reg), I(v)]
+                emit("imm_ri", mn, "ri", w, kind, b, reg=reg, acc=(regnum(reg) == 0))
+            kindm = "sx32" if w == 64 else "w"
+            for (base, index, scale, disp) in (IMM_MEMS if full else IMM_MEMS[:4]):
+                M = render_mem(base, index, scale, "is", disp)
+                def b(txt, v, mn=mn, w=w, M=M, base=base, index=index, scale=scale, disp=disp):
+                    t = "%s %s %s, %s" % (mn, KW[w], M, txt)
+                    return t, t, [mem_exp(w, base, index, scale, disp), I(v)]
+                emit("imm_mi", mn, "mi", w, kindm, b, base=base, index=index)
+    for w in (16, 32, 64):
+        for reg in regsets[w][:2] + [regsets[w][-1]]:
+            def b(txt, v, reg=reg):
+                t = "imul %s, %s, %s" % (reg, reg, txt)
+                return t, t, [R(reg), R(reg), I(v)]
+            emit("imm_imul_rri", "imul", "rri", w, "sx32" if w == 64 else "w", b, reg=reg)
+    for mn in SHIFT_IMM:
+        for w in (8, 16, 32, 64):
+            for reg in regsets[w][:2] + [regsets[w][-1]]:
+                def b(txt, v, mn=mn, reg=reg):
+                    t = "%s %s, %s" % (mn, reg, txt)
+                    return t, t, [R(reg), I(v)]
+                emit("imm_shift_ri", mn, "ri", w, "imm8u", b, reg=reg)
+            if mn != "ror":
+                def b(txt, v, mn=mn, w=w):
+                    t = "%s %s [rbx+rcx*2], %s" % (mn, KW[w], txt)
+                    return t, t, [mem_exp(w, "rbx", "rcx", 2, None), I(v)]
+                emit("imm_shift_mi", mn, "mi", w, "imm8u", b)
+    for w in (32, 64):
+        for reg in regsets[w][1:]:
+            def b(txt, v, reg=reg):
+                t = "rorx %s, %s, %s" % (reg, reg, txt)
+                return t, t, [R(reg), R(reg), I(v)]
+            emit("imm_rorx", "rorx", "rri", w, "imm8u", b, reg=reg)
+    for mn in ("shld", "shrd"):
+        for w in (16, 32, 64):
+            reg = regsets[w][1]
+            def b(txt, v, mn=mn, reg=reg):
+                t = "%s %s, %s, %s" % (mn, reg, reg, txt)
+                return t, t, [R(reg), R(reg), I(v)]
+            emit("imm_shxd_rri", mn, "rri", w, "imm8u", b, reg=reg)
+            def b(txt, v, mn=mn, reg=reg, w=w):
+                t = "%s %s [rbx], %s, %s" % (mn, KW[w], reg, txt)
+                return t, t, [mem_exp(w, "rbx", None, None, None), R(reg), I(v)]
+            emit("imm_shxd_mri", mn, "mri", w, "imm8u", b, reg=reg)
+
+    def b(txt, v):
+        return "push " + txt, "push qword " + txt if False else "push " + txt, [I(v)]
+    emit("imm_push", "push", "i", 64, "sx32", b)
+
+    def b(txt, v):
+        return "xabort " + txt, "xabort " + txt, [I(v)]
+    emit("imm_xabort", "xabort", "i", 8, "imm8u", b)
+    for x in ("xmm1", "xmm9"):
+        def b(txt, v, x=x):
+            t = "psrldq %s, %s" % (x, txt)
+            return t, t, [R(x), I(v)]
+        emit("imm_psrldq", "psrldq", "vi", 128, "imm8u", b, reg=x)
+    for mn in AVX_IMM:
+        def b(txt, v, mn=mn):
+            t = "%s ymm1, ymm9, ymm2, %s" % (mn, txt)
+            return t, t, [R("ymm1"), R("ymm9"), R("ymm2"), I(v)]
+        emit("imm_vperm", mn, "yyyi", 256, "imm8u", b)
+    # mov r64, imm: either the 64-bit destination or (for 0 <= v <= 0xffffffff) its zero-extending
+    # 32-bit form is the same instruction semantically; which one is chosen is C11's business.
+    for c in out:
+        if c["fam"] == "imm_ri" and c["mn"] == "mov" and c["w"] == 64 and 0 <= c["imm"] <= 0xffffffff:
+            r32 = R32[R64.index(c["reg"])]
+            c["alt"] = [canon_expected("mov", [R(r32), I(c["imm"])])]
+    return out
+
+
+# ----------------------------------------------------------------- C05
+REL8_ONLY = {"jrcxz"}
+REL32_ONLY = {"call", "xbegin"}
+NEAR_LEN = {"jmp": 5, "call": 5, "xbegin": 6}
+
+
+def branch_model(mn, kw, d):
+    """What the property allows: set of admissible outcomes among {'rel8','rel32','reject'};
+    None = statement silent (any outcome, but an accepted line must still encode d)."""
+    in8 = -128 <= d <= 127
+    in32 = -(2**31) <= d < 2**31
+    if not in32:
+        return None
+    if mn in REL8_ONLY:
+        if not in8:
+            return {"reject"}
+        if kw is None:
+            return {"rel8"}
+        return {"rel8", "reject"} if kw == "short" else None
+    if mn in REL32_ONLY:
+        if kw == "short":
+            return None
+        return {"rel32"}
+    if kw == "short":
+        return {"rel8", "reject"} if in8 else {"reject"}
+    if kw == "long":
+        return {"rel32"}
+    return {"rel8", "rel32"} if in8 else {"rel32"}
+
+
+def gen_branch(rnd, nrand=64, full=False):
+    out = []
+    ds = set(range(-129, 129))
+    for c in (2**15, 2**31):
+        for s in (1, -1):
+            for e in (-1, 0, 1):
+                ds.add(s * c + e)
+    ds |= {2**31 - 1, -(2**31), 2**31, -(2**31) - 1, 0x7fffff00, -0x7fffff00}
+    for _ in range(nrand):
+        ds.add(rnd.randrange(-(2**31), 2**31))
+        ds.add(rnd.randrange(-(2**15), 2**15))
+    ds = sorted(d for d in ds if -(2**31) <= d < 2**31)  # outside: the statement is silent
+    for mn in ["jmp", "call", "jrcxz", "xbegin"] + JCC:
+        for kw in (None, "short", "long"):
+            for d in ds:
+                model = branch_model(mn, kw, d)
+                for hexsp in (False, True):
+                    if not full and not (-129 <= d <= 128) and rnd.random() < 0.5:
+                        continue
+                    mag = abs(d)
+                    txt = ("-" if d < 0 else "") + (("0x%x" % mag) if hexsp else "%d" % mag)
+                    text = "%s %s%s" % (mn, (kw + " ") if kw else "", txt)
+                    in8 = -128 <= d <= 127
+                    use8 = (mn in REL8_ONLY) or (in8 and kw != "long" and mn not in REL32_ONLY)
+                    if use8:
+                        nasm = "%s %s$+2+(%d)" % (mn, "" if mn in REL8_ONLY else "short ", d)
+                    else:
+                        nl = NEAR_LEN.get(mn, 6)
+                        nasm = "%s %s$+%d+(%d)" % (mn, "near " if mn not in ("call", "xbegin") else "", nl, d)
+                    c = mk("branch_rel", mn, "rel", text, [("rel", d)], None, nasm=nasm, d=d, kw=kw, hexsp=hexsp)
+                    c["model"] = sorted(model) if model is not None else None
+                    c["in8"] = in8
+                    if model == {"reject"} or not (-(2**31) <= d < 2**31):
+                        c["noref"] = True
+                    out.append(c)
+    return out
+
+
+def gen_branch_indirect():
+    out = []
+    for mn in ("jmp", "call"):
+        for r in R64:
+            out.append(mk("branch_r", mn, "r", "%s %s" % (mn, r), [R(r)], 64))
+    return out
+
+
+def gen_far(rnd):
+    """far jmp/call through memory with word/dword/qword (and no) size keyword."""
+    out = []
+    for mn in ("jmp", "call"):
+        for base in ("rax", "rbp", "r12", "r13", "rsp", "ebx", "r9"):
+            for disp in (None, 0x7f, 0x80, -0x80):
+                for kw, nkw in ((None, "qword"), ("word", "word"), ("dword", "dword"), ("qword", "qword")):
+                    M = render_mem(base, None, None, "is", disp)
+                    text = "%s far %s%s" % (mn, (kw + " ") if kw else "", M)
+                    nasm = "%s far %s %s" % (mn, nkw, M)
+                    c = mk("branch_far", mn, "far_m", text, [], 64, nasm=nasm, base=base, disp=disp, kw=kw)
+                    asz = REGW[base]
+                    c["exp"] = (mn + "f", ("m", None, asz, ((base, 1),), disp or 0), ("i", {"word": 16, "dword": 32, "qword": 64}[nkw]))
+                    c["far_size"] = nkw
+                    out.append(c)
+    return out
